@@ -12,4 +12,6 @@ import GontainerModel.Props.C05
 #print axioms GM.C05.contextual_once_per_context
 #print axioms GM.C05.contexts_are_separate
 #print axioms GM.C05.plain_get_has_fresh_bag
+#print axioms GM.C05.shared_once_for_acyclic
+#print axioms GM.C05.contextual_once_for_acyclic
 #print axioms GM.C05.demoHist_kind
